@@ -188,16 +188,34 @@ func c16Observe(c *core.Ctx, mask int, other string, want rules.CosmeticOption) 
 			storage = s
 		}
 	}
-	if long {
+	grows := !long && c.Rng.Intn(8) == 0
+	if long || grows {
 		if dir, derr := os.MkdirTemp(filepath.Join(c.Env.VerifDir, ".work"), "c16f."); derr == nil {
 			defer os.RemoveAll(dir)
 			fn := filepath.Join(dir, "list.txt")
-			if os.WriteFile(fn, []byte(util.Lines(list)), 0o644) == nil {
+			content, rest := util.Lines(list), ""
+			if grows {
+				// A user-rules file that is still being edited when the list is
+				// opened: the exception is appended afterwards, before the engine
+				// is built.
+				at := strings.Index(content, text+"\n")
+				content, rest = content[:at], content[at:]
+				c.Event("file_backed_lists_that_grow_after_they_are_opened", 1)
+			}
+			if os.WriteFile(fn, []byte(content), 0o644) == nil {
 				if fl, ferr := filterlist.NewFileRuleList(0, fn, false); ferr == nil {
+					if rest != "" {
+						if af, aerr := os.OpenFile(fn, os.O_WRONLY|os.O_APPEND, 0o644); aerr == nil {
+							_, _ = af.WriteString(rest)
+							_ = af.Close()
+						}
+					}
 					if fs, serr := filterlist.NewRuleStorage([]filterlist.RuleList{fl}); serr == nil {
 						storage = fs
 						defer fs.Close()
-						c.Event("file_backed_lists_with_a_rule_longer_than_4k", 1)
+						if long {
+							c.Event("file_backed_lists_with_a_rule_longer_than_4k", 1)
+						}
 					}
 				}
 			}
@@ -301,7 +319,7 @@ func init() {
 	core.Register(&core.Prop{
 		ID:    "C16",
 		Level: "exploration",
-		Rule: "one case per subset of {elemhide,generichide,jsinject,document,urlblock,genericblock,content,extension,important} on an exception rule (all 512, each in 8 (thorough 200) renderings; modifiers in PRNG order, one in three renderings repeats a modifier), " +
+		Rule: "(engine path: one list in eight is file-backed and gets the exception appended after the list is opened) one case per subset of {elemhide,generichide,jsinject,document,urlblock,genericblock,content,extension,important} on an exception rule (all 512, each in 8 (thorough 200) renderings; modifiers in PRNG order, one in three renderings repeats a modifier), " +
 			"each observed via NewMatchingResult, Engine.MatchRequest and GetCosmeticResult with no other rule, a plain blocking rule, an important blocking rule and a domain-specific blocking rule, " +
 			"plus the monotonicity check against every one-modifier superset; non-trivial = subset that contains a cosmetic-relevant modifier; distinct by subset",
 		Assumptions: []string{
